@@ -388,6 +388,24 @@ def run(ck: Check) -> int:
                     if got != want:
                         tree_found.append(Failing(f'glob({c.pats!r}) with the exclusion {q!r} ({how}): the exclusion does not behave as if DOTGLOB were set',
                                                   {**c.to_json(G, t), 'exclusion': q, 'given': how}, want[:10], got[:10], 'wcmatch/glob.py:Glob.__init__ (negate_flags)'))
+        # the same dot-free pattern as BYTES through a directory descriptor (the walker's hidden test then sees names that os.scandir(fd)
+        # produced as str: added after seeded change C03i, where `hidden` was computed on the raw str name — '.' == b'.' is quietly False)
+        if dotfree and c.mode in ('root_dir', 'dir_fd') and isinstance(c.pats, str) and not c.flags & (G.NEGATE | G.FOLLOW) and not t.cyclic:
+            try:
+                fd_ = os.open(t.root, os.O_RDONLY | os.O_DIRECTORY)
+                try:
+                    with common.time_limit(10):
+                        rb_ = [os.fsdecode(x) for x in G.glob(os.fsencode(c.pats), flags=c.flags, dir_fd=fd_)]
+                finally:
+                    os.close(fd_)
+                tstats['bytes_dirfd_runs'] = tstats.get('bytes_dirfd_runs', 0) + 1
+                for r_ in rb_:
+                    if _hidden_seg(r_):
+                        tree_found.append(Failing(f'glob({os.fsencode(c.pats)!r}, dir_fd=) returned {r_!r}: a hidden segment, dot-free bytes pattern',
+                                                  {**c.to_json(G, t), 'api': 'glob.glob(bytes, dir_fd)', 'path': r_}, 'none', r_, 'wcmatch/glob.py:Glob._iter (hidden test)'))
+                        break
+            except (common.CallTimeout, OSError):
+                pass
         # the same pattern through pathlib and WcMatch (dot-free patterns only)
         if dotfree and c.mode == 'root_dir' and isinstance(c.pats, str) and not c.flags & G.NEGATE:
             pfl = c.flags & ~(G.MARK | G.NOUNIQUE)
